@@ -180,6 +180,9 @@ type connScript struct {
 	// senders > 1: the client packets are handed to Send by that many goroutines at once (packet i by
 	// goroutine i mod senders); the server must receive every packet intact, in any order.
 	senders int
+	// writeWait > 0 (enumerated limit cases only): how long the server may be stuck writing a stream that the
+	// client is entitled to stop reading, before the connection is judged on what arrived so far.
+	writeWait time.Duration
 }
 
 func (s *connScript) String() string {
@@ -275,6 +278,14 @@ func (ss *serverSide) receivedCount() int {
 	ss.mu.Lock()
 	defer ss.mu.Unlock()
 	return len(ss.received)
+}
+
+// afterIf is time.After(d) when on, and a channel that never fires otherwise.
+func afterIf(d time.Duration, on bool) <-chan time.Time {
+	if !on {
+		return nil
+	}
+	return time.After(d)
 }
 
 func runConn(s *connScript) (err error) {
@@ -477,9 +488,16 @@ func runConn(s *connScript) (err error) {
 	if sendErr != nil {
 		return report("Connection.Send of client packet %d (%s) failed on a healthy connection: %v", sendAt, describe(s.client[sendAt]), sendErr)
 	}
+	blocked := false
 	select {
 	case <-ss.writerDone:
-	case <-time.After(3 * waitLimit):
+	case <-afterIf(s.writeWait, faulty && s.writeWait > 0): // armed only for scripts that set writeWait
+		// The stream holds a frame the client must refuse, so the client may have stopped reading and the rest
+		// cannot be written. What must have arrived (the frames before it, the client's own packets) is
+		// checked below, then the server ends the connection; a late delivery of the refused frame would
+		// still be seen.
+		blocked = true
+	case <-afterIf(3*waitLimit, !(faulty && s.writeWait > 0)):
 		if faulty {
 			// a client that has detected the fault stops reading; the rest of a large stream then cannot be
 			// written. Nothing was delivered wrongly so far (checked below on what did arrive): no statement.
@@ -497,6 +515,16 @@ func runConn(s *connScript) (err error) {
 	delivered := waitFor(func() bool { return gotCount() >= len(want) })
 	if faulty {
 		release() // end of stream: whatever the client still holds back must surface now
+		if blocked {
+			// the writer is stuck inside Serve: close the socket under it (only now, after the wait for the
+			// intact frames, so that a reset cannot take undelivered intact data with it)
+			select {
+			case cn := <-ss.connUp:
+				cn.Close()
+				<-ss.writerDone
+			default:
+			}
+		}
 		time.Sleep(200 * time.Millisecond)
 	} else {
 		time.Sleep(10 * time.Millisecond)
@@ -532,7 +560,7 @@ func runConn(s *connScript) (err error) {
 	if !faulty && rerr != nil {
 		return report("the server could not parse what the client sent: %v", rerr)
 	}
-	if werr != nil {
+	if werr != nil && !blocked {
 		return report("INFRA: server write: %v", werr)
 	}
 
@@ -868,4 +896,4 @@ func TestEnum(t *testing.T) {
 		})
 }
 
-func TestReplay(t *testing.T) { core.Replay(t, parseCheck, connCheck, gridCheck) }
+func TestReplay(t *testing.T) { core.Replay(t, parseCheck, connCheck, gridCheck, limitCheck) }
